@@ -164,6 +164,26 @@ def hRvPair : Handler := fun args res => do
     return { corr := corrOf model istr, oracle := if res.contains "PANIC" then some "panic" else none,
              oracleNA := !res.contains "PANIC", tags := tags0 ++ ["notboth"] }
 
+/-- `rvsweep <32|64> <exts> <lo> <hi> <nrows> (name match mask)…`: exhaustive comparison done inside
+the harness; here we check that the rows on the line ARE the reference rows of the configuration and
+that the harness found no mismatch. -/
+def hRvSweep : Handler := fun args res => do
+  let (variant, exts, lo, hi, rows) ← runP (do
+    let v ← next; let e ← next; let lo ← pNat; let hi ← pNat
+    let rows ← pList (do let n ← next; let mt ← pNat; let mk ← pNat; pure (n, mt, mk))
+    pure (v, e, lo, hi, rows)) args
+  let xlen := if variant == "32" then 32 else 64
+  let ref := (Spec.Rv.rows xlen (exts.contains 'm') (exts.contains 'a')).map fun r => (fmtText r.name, r.mtch, r.mask)
+  let rowsOk := rows == ref
+  let tags := [variant, exts, "sweep"]
+  match res with
+  | acc :: mism :: rest =>
+    let orc := if !rowsOk then some "the rows on the line are not the reference rows of the configuration"
+      else if mism != "0" then some s!"decoder differs from the reference on {mism} words of [{lo},{hi}), first: {" ".intercalate rest}"
+      else none
+    return { corr := none, oracle := orc, tags := tags ++ [s!"accepted{acc}"] }
+  | _ => return { corr := some "sweep result", oracle := some "panic or malformed sweep result", tags }
+
 /-- `rvspec`: prints the reference encoding table (used by the case generator):
 `<n> name match mask ext rv32 rv64 …` in the `C=diff:` field. -/
 def hRvSpec : Handler := fun _ _ => do
@@ -173,6 +193,6 @@ def hRvSpec : Handler := fun _ _ => do
     acc ++ s!" {r.name} {r.mtch} {r.mask} {ext r.ext} {r.rv32} {r.rv64}") (toString rows.length)
   return { corr := some txt, oracleNA := true }
 
-def rvHandlers : List (String × Handler) := [("rvparse", hRvParse), ("rvpair", hRvPair), ("rvspec", hRvSpec)]
+def rvHandlers : List (String × Handler) := [("rvparse", hRvParse), ("rvpair", hRvPair), ("rvsweep", hRvSweep), ("rvspec", hRvSpec)]
 
 end Driver
